@@ -366,7 +366,7 @@ Definition print_run (m : outmode) (r : run_result) : sexp :=
                        | Some ps => print_rows (fmt_subst ps) (map rdata rows)
                        | None => Err
                        end
-        | MLegacy _ => Unm
+        | MLegacy term => do ls <- format_records (mkRP [] [] term) rows; Ok (flat_map (fun l => l ++ [10%N]) ls)
         end
     | Ok (OTable t) =>
         match m with
